@@ -91,6 +91,9 @@ Fixpoint binds_ok (l : list bentry) : bool :=
       && binds_ok l'
   end.
 
+(** every scale factor is positive (10^scale) *)
+Definition binds_pos (l : list bentry) : bool := forallb (fun e => negb (be_k e =? 0)) l.
+
 (** * Decoding observations into ledgers, and projecting ledgers onto observations *)
 Definition decode_chain (U : universe) (c : chain) (o : cobs) : cstate :=
   let nt := ntok U c in
@@ -333,7 +336,8 @@ Definition inv_failures (U : universe) (cfg : config) (cs0 : chain -> cstate) (p
     an unknown packet was accepted, 13 an error acknowledgement was written but the destination (or any
     chain) changed, 14 success acknowledgement: the source changed beyond ack status + relayer fee,
     15 error acknowledgement: the sender did not get back exactly what he sent, 20 success receive: a user
-    receiver was not credited exactly, 22 a transfer was accepted with a sequence other than the next one. *)
+    receiver was not credited exactly, 22 a transfer was accepted with a sequence other than the next one,
+    25 an accepted acknowledgement did not move the packet's relayer fee from the packet contract to the relayer. *)
 Definition bal_of (U : universe) (obs : list cobs) (c : chain) (t : token) (h : holder) : N := bal (decode U obs c) t h.
 
 Definition mon_step (U : universe) (cfg : config) (ps : list packet) (pre : list cobs) (o : ostep) : list packet * list nat :=
@@ -379,14 +383,19 @@ Definition mon_step (U : universe) (cfg : config) (ps : list packet) (pre : list
                                        (tokens U src) in
             let others_same := forallb (fun c => Nat.eqb c src || (Nat.eqb (cobs_diff (nth c pre dummy_obs) (nth c post dummy_obs)) 0))
                                        (chain_ids U) in
+            (* the relayer fee recorded for the packet before the step moves from the packet contract to the relayer *)
+            let '(ft, f) := fees (decode_full U ps pre src) dst sq in
+            let fee_paid := (bal_of U post src ft Relayer =? bal_of U pre src ft Relayer + f)
+                            && (bal_of U post src ft PacketC + f =? bal_of U pre src ft PacketC) in
+            let feef := if fee_paid then [] else [25%nat] in
             if p_code p =? 0 then
-              (ps', if sender_same && others_same
+              (ps', feef ++ if sender_same && others_same
                        && list_N_eqb (o_out (nth src pre dummy_obs)) (o_out (nth src post dummy_obs))
                        && list_N_eqb (o_bind (nth src pre dummy_obs)) (o_bind (nth src post dummy_obs))
                        && list_N_eqb (o_supply (nth src pre dummy_obs)) (o_supply (nth src post dummy_obs))
                     then [] else [14%nat])
             else
-              (ps', if others_same
+              (ps', feef ++ if others_same
                        && forallb (fun t => bal_of U post src t (refund_target p) =?
                                             bal_of U pre src t (refund_target p)
                                             + (if Nat.eqb t (p_token p) && negb (p_amount p =? 0) then refund_due cfg p else 0))
@@ -394,6 +403,7 @@ Definition mon_step (U : universe) (cfg : config) (ps : list packet) (pre : list
                     then [] else [15%nat])
       end
   | AddFee c u dst sq amt => (ps, [])
+  | Fault _ _ _ _ => (ps, [12%nat])     (* a forged / altered / misrouted relay message was ACCEPTED *)
   end.
 
 Fixpoint mon_steps (U : universe) (cfg : config) (cs0 : chain -> cstate) (i : nat) (ps : list packet) (pre : list cobs)
